@@ -359,6 +359,8 @@ class Impl:
             tree = hy_compile(form, self.mod, import_stdlib=False)
         except HyLanguageError as e:
             return ("syntax", getattr(e, "msg", None) or str(e))
+        except Exception as e:      # the compiler itself failed: not a verdict on the lambda list
+            return ("crash", "%s: %s" % (type(e).__name__, e))
         node = next(n for n in ast.walk(tree) if isinstance(n, (ast.Lambda, ast.FunctionDef, ast.AsyncFunctionDef)))
         try:
             if defn:
@@ -370,6 +372,8 @@ class Impl:
                             self._env_for(tree))
         except SyntaxError as e:
             return ("pysyntax", str(e))
+        except Exception as e:      # e.g. compile() rejecting a malformed ast.arguments node
+            return ("crash", "%s: %s" % (type(e).__name__, e))
         return ("ok", node.args, fobj)
 
     def _env_for(self, tree):
@@ -434,7 +438,7 @@ def canon_args_model(parsed):
 
 def m_docstring(rec, params):
     i = rec.get("input", {})
-    return rec.get("key") == "docstring" and isinstance(i, dict) and i.get("class") == "first-form-compiles-to-string-constant"
+    return rec.get("key") == "docstring" and isinstance(i, dict) and i.get("class") == "docstring-from-non-literal-first-form"
 
 
 def run(chk):
@@ -454,3 +458,13 @@ def run(chk):
     model_ok = all(o[1] for o in chk.obligations if o[0].startswith("coq cone"))
     from props import c05_runs
     c05_runs.run_all(chk, hy, impl, model_ok, thorough)
+
+
+def replay(path):
+    """re-run the check that produced the replay file (the failing input is regenerated from the same seed)"""
+    import json
+    rec = json.load(open(path))
+    print("replaying", rec.get("kind"), rec.get("key"), json.dumps(rec.get("input"))[:300])
+    chk = vlib.Check("C05", "quick", 0)
+    run(chk)
+    return chk.finish()
